@@ -31,7 +31,7 @@ def run(ctx):
     b = ctx.go_build(".", ov, name="main_c12")
     env = {}
     if ctx.replay:
-        o = ctx.replay["obs"]
+        o = ctx.replay["observation"]
         env = {"VERIF_C12_ONLY": f"{o['mut']}|{o['parser']}|{o['seed']}"}
     obs = ctx.go_run(b, "^TestVerifC12$", cases=casep, env=env, timeout_s=3400 if q else 20000)
     if not obs:
